@@ -50,9 +50,12 @@ GROUPS["bvf_rot"] = G("bvf_rot", BVF_PRELUDE + ["rot.rs"],
 GROUPS["bvf_misc"] = G("bvf_misc", BVF_PRELUDE,
     BVF_BASE + stub(BVF_CORE) + verify(["bvf.not", "bvf.not_ref", "bvf.shl_in", "bvf.shr_in"]))
 
-BVF_COUNT = ["bvf.leading_zeros", "bvf.leading_ones", "bvf.trailing_zeros", "bvf.trailing_ones"]
+BVF_COUNT = ["bvf.leading_zeros", "bvf.leading_ones", "bvf.trailing_zeros", "bvf.trailing_ones", "bvf.is_zero"]
 GROUPS["bvf_count"] = G("bvf_count", BVF_PRELUDE,
     BVF_BASE + stub(BVF_CORE) + verify(BVF_COUNT))
+
+GROUPS["bvf_slice"] = G("bvf_slice", BVF_PRELUDE,
+    BVF_BASE + stub(BVF_CORE) + verify(["bvf.copy_range"]))
 
 # -------------------------------------------------------------------------------------------------
 # property -> jobs
